@@ -354,6 +354,8 @@ def standard_run(prop, modules, gen_cases, tier, seed, replay, assumptions, rule
     shutil.rmtree(work, ignore_errors=True)
     os.makedirs(work)
     ctx = dict(work=work, zdrv=zdrv, tier=tier, seed=seed, proof=proof)
+    if not replay:      # replays of earlier runs would be mistaken for this run's
+        shutil.rmtree(os.path.join(VERIF, 'replays', prop), ignore_errors=True)
     global CURRENT_WORK
     CURRENT_WORK = work
     recs = []
